@@ -81,7 +81,9 @@ def options(draw, n, nch):
 def cases(draw, max_bins=24):
     m = draw(matrices(max_bins=max_bins))
     o = draw(options(m["n"], len(m["sizes"])))
-    return {"part": "balance", **m, "opts": o}
+    # history: the Cooler object is made while the URI still holds a thinner matrix over the same bins
+    return {"part": "balance", **m, "opts": o, "stale_object": draw(st.integers(0, 3)) == 0,
+            "chunksize": draw(st.sampled_from([None, None, 10**7, max(8, len(m["rows"]) // 3)]))}
 
 
 def make_cooler(ctx, case):
@@ -123,12 +125,28 @@ def check_balance(case, ctx: Ctx):
     o = case["opts"]
     n, offsets = case["n"], case["offsets"]
     A = model.dense(case["rows"], n, True, 0)
-    path = make_cooler(ctx, case)
-    try:
-        clr = cooler.Cooler(path)
-        w, stats = call("balance_cooler", run_balance, clr, o)
-    finally:
-        ctx.clean(path)
+    kw = {"chunksize": case["chunksize"]} if "chunksize" in case else {}
+    if case.get("stale_object") and len(case["rows"]) >= 2:
+        from ..coolio import create_from_model
+
+        thin = dict(case, rows=case["rows"][: len(case["rows"]) // 2])
+        path = make_cooler(ctx, thin)
+        try:
+            clr = cooler.Cooler(path)
+            _ = clr.matrix(balance=False, sparse=True)[:]
+            edges = [[10 * k for k in range(s_ + 1)] for s_ in case["sizes"]]
+            bt = {"names": [f"chr{t + 1}" for t in range(len(edges))], "edges": edges, "kinds": ["fixed"] * len(edges)}
+            call("re-create with the full matrix", create_from_model, path, bt, case["rows"], True, h5opts={"compression": None}, mode="a")
+            w, stats = call("balance_cooler (object created before the re-creation)", run_balance, clr, o, **kw)
+        finally:
+            ctx.clean(path)
+    else:
+        path = make_cooler(ctx, case)
+        try:
+            clr = cooler.Cooler(path)
+            w, stats = call("balance_cooler", run_balance, clr, o, **kw)
+        finally:
+            ctx.clean(path)
     w = np.asarray(w, dtype=float)
     check(w.shape == (n,), f"weights shape {w.shape}")
     fin = np.isfinite(w)
@@ -203,10 +221,73 @@ def check_balance(case, ctx: Ctx):
                           "converged" if conv.all() else "partly-converged" if conv.any() else "not-converged",
                           f"ignore_diags={o['ignore_diags']}", "flatness-checked" if n_checked else "flatness-skipped",
                           "all-nan" if not fin.any() else "some-finite", "x0" if o["x0"] else "no-x0",
-                          "known" if used_known else "clean"])
+                          "known" if used_known else "clean", "stale-object" if case.get("stale_object") else "fresh-object"])
 
 
-CHECKS = {"balance": check_balance}
+# ---------------------------------------------------------------------------
+# command line: --blacklist BED (regions -> bins through bedslice)
+# ---------------------------------------------------------------------------
+
+@st.composite
+def cli_cases(draw):
+    m = draw(matrices(min_bins=6, max_bins=16, max_chroms=3))
+    o = draw(options(m["n"], len(m["sizes"])))
+    o.update(x0=None, rescale=True, blacklist=None, max_iters=min(o["max_iters"], 100))
+    regs = []
+    for _ in range(draw(st.integers(1, 3))):
+        ci = draw(st.integers(0, len(m["sizes"]) - 1))
+        L = 10 * m["sizes"][ci]
+        a = draw(st.one_of(st.integers(0, L - 1), st.integers(0, m["sizes"][ci] - 1).map(lambda k: 10 * k)))
+        b = draw(st.one_of(st.integers(a + 1, L), st.integers(a // 10 + 1, m["sizes"][ci]).map(lambda k: 10 * k)))
+        regs.append([ci, a, b])
+    return {"part": "cli", **m, "opts": o, "regions": regs, "header": draw(st.booleans())}
+
+
+def check_cli(case, ctx: Ctx):
+    import os
+
+    import cooler
+
+    from ..cliutil import run_cli
+
+    o = dict(case["opts"])
+    n, offsets = case["n"], case["offsets"]
+    A = model.dense(case["rows"], n, True, 0)
+    # bins overlapping each half-open region, by linear scan
+    bl = sorted({offsets[ci] + k for ci, a, b in case["regions"] for k in range(case["sizes"][ci]) if 10 * k < b and 10 * (k + 1) > a})
+    path = make_cooler(ctx, case)
+    bed = path + ".blacklist.bed"
+    try:
+        with open(bed, "w") as f:
+            if case["header"]:
+                f.write("chrom\tstart\tend\n")
+            for ci, a, b in case["regions"]:
+                f.write(f"chr{ci + 1}\t{a}\t{b}\n")
+        args = ["balance", path, "-p", 1, "--blacklist", bed, "--ignore-diags", o["ignore_diags"], "--mad-max", o["mad_max"],
+                "--min-nnz", o["min_nnz"], "--min-count", o["min_count"], "--tol", repr(o["tol"]), "--max-iters", o["max_iters"]]
+        if o["cis_only"]:
+            args.append("--cis-only")
+        if o["trans_only"]:
+            args.append("--trans-only")
+        rc, _, exc = run_cli(args)
+        check(rc == 0 and exc is None, f"cooler balance --blacklist failed: exit {rc} {exc!r}")
+        w = cooler.Cooler(path).bins()["weight"][:].to_numpy(dtype=float)
+    finally:
+        ctx.clean(path, bed)
+    o["blacklist"] = bl
+    dw, cw = known_modes(case)
+    ref = balmodel.ic_dense(A, offsets, o, diag_weight=dw, use_cweights=cw)
+    _, tie = balmodel.bin_masks(A, offsets, o, diag_weight=dw)
+    if not tie.any():
+        ref_nan = ~np.isfinite(ref["weights"])
+        diff = np.flatnonzero(ref_nan != ~np.isfinite(w))
+        check(len(diff) == 0, lambda: f"cooler balance --blacklist {case['regions']}: bin {int(diff[0])} is "
+                                      f"{'finite' if np.isfinite(w[diff[0]]) else 'NaN'} but the regions overlap exactly bins {bl} "
+                                      f"(plus the documented filters)")
+    ctx.record(case, any(a % 10 == 0 or b % 10 == 0 for _, a, b in case["regions"]), ["cli-blacklist", "header" if case["header"] else "no-header"])
+
+
+CHECKS = {"balance": check_balance, "cli": check_cli}
 
 
 def replay(ctx: Ctx, case):
@@ -215,7 +296,9 @@ def replay(ctx: Ctx, case):
 
 def run(ctx: Ctx):
     q = ctx.tier == "quick"
-    if not run_given(ctx, "balance", cases(24), check_balance, per_shard(ctx, 2400 if q else 30000), batch=50):
+    if not run_given(ctx, "balance", cases(24), check_balance, per_shard(ctx, 2000 if q else 30000), batch=50):
+        return
+    if not run_given(ctx, "cli-blacklist", cli_cases(), check_cli, per_shard(ctx, 200 if q else 4000), batch=25):
         return
     if not q:
         run_given(ctx, "balance-large", cases(40), check_balance, per_shard(ctx, 3000), batch=30)
